@@ -57,6 +57,7 @@ ValidSelectorish(g) == g \in {<<"ident">>, <<"*">>, <<"#hash">>, <<"ident", "ide
                               <<"#hash", "ident">>, <<"ident", ",", "ident">>, <<"ident", ":", "ident">>, <<"*", ":", "ident">>,
                               <<"#hash", ":", "ident">>, <<":", "ident">>, <<"ident", "*", "ident">>, <<"ident", "ident", "ident">>,
                               <<"ident", "#hash", "ident">>, <<"*", "ident", "ident">>, <<"ident", "ident", "*">>, <<"ident", "ident", "#hash">>,
+                              <<"[", "ident", "]">>,          \* an attribute selector
                               <<"*", "*">>, <<"*", "#hash">>, <<"#hash", "#hash">>, <<"#hash", "*">>, <<"ident", "*", "*">>, <<"*", "*", "*">>}
 SelGarbage == {g \in Garbage : Balanced(g) /\ "{" \notin Range(g) /\ "@kw" \notin Range(g) /\ Len(g) <= 3 /\ ~ValidSelectorish(g)
                   /\ (\E i \in 1..Len(g) : g[i] \in {"!", "$", "(", "[", "string", "number", ",", ":"})
